@@ -44,13 +44,15 @@ type PropRound struct {
 
 type PropCase struct {
 	Rounds []PropRound `json:"rounds"`
+	// High: the chain starts at height 58 with a halving interval of 1 block, so the history crosses the 64th halving
+	High bool `json:"high,omitempty"`
 }
 
 var propMutNames = []string{"honest", "no-txs", "17-txs", "first-not-block-msg", "two-msgs-in-first-tx", "second-block-msg-later", "other-author",
 	"author-not-consensus-proposer", "fee-recipient-not-author", "wrong-parent", "wrong-number", "wrong-beacon-root", "zero-gas-requests", "two-gas-requests",
 	"undecodable-requests", "system-section-deviates", "engine-INVALID", "engine-SYNCING", "engine-ACCEPTED", "engine-error", "future-timestamp",
 	"wrong-signature", "wrong-sequence", "wrong-timeout-height", "non-bridge-msg-among-rest", "count-byte-raised", "nil-payload",
-	"state-root-changed-hash-kept", "user-tx-appended-hash-kept"}
+	"state-root-changed-hash-kept", "user-tx-appended-hash-kept", "relayer-txs-without-block-msg"}
 
 type propWorld struct {
 	c       *world.Cluster
@@ -62,9 +64,13 @@ type propWorld struct {
 	elHist  []common.Hash // execution heads, oldest first
 }
 
-func newPropWorld() (*propWorld, error) {
+func newPropWorld(high bool) (*propWorld, error) {
 	world.MempoolMaxTxs = 50
 	spec := world.DefaultSpec(2, 2)
+	if high {
+		spec.InitialHeight = 58
+		spec.LockingParams.HalvingInterval = 1
+	}
 	spec.RelayerParams.ElectingPeriod = 1000 * time.Hour
 	spec.LockingParams.UnlockDuration = 7 * time.Second
 	spec.LockingParams.ExitingDuration = 30 * time.Second
@@ -418,6 +424,12 @@ func (w *propWorld) round(ri int, r PropRound, o *Outcome) *Failure {
 			return failf("fixture", "tx-build-failed", "%v", err)
 		}
 		txs = [][]byte{ethRaw, raw}
+	case "relayer-txs-without-block-msg":
+		// what the SDK proposes when the node's own proposal builder fails: the raw mempool content
+		txs = [][]byte{approve(0, 910_000)}
+		if r.Arg%2 == 1 {
+			txs = append(txs, approve(1, 910_001))
+		}
 	case "non-bridge-msg-among-rest":
 		raw, err := p.Tx(relProp, 0, world.TxOpts{}, &authtypes.MsgUpdateParams{Authority: rv.Proposer, Params: authtypes.DefaultParams()})
 		if err != nil {
@@ -455,8 +467,8 @@ func decodeAny(n *world.Node, raw []byte) (sdk.Tx, string, error) {
 }
 
 func runPropCase(c PropCase) Outcome {
-	o := Outcome{}
-	w, err := newPropWorld()
+	o := Outcome{Classes: []string{fmt.Sprintf("high-start=%v", c.High)}}
+	w, err := newPropWorld(c.High)
 	if err != nil {
 		o.Fail = failf("fixture", "fixture-failed", "%v", err)
 		return o
@@ -477,6 +489,7 @@ func runPropCase(c PropCase) Outcome {
 
 func genPropCase(t *rapid.T) PropCase {
 	var c PropCase
+	c.High = rapid.IntRange(0, 3).Draw(t, "high") == 0
 	n := rapid.IntRange(3, 12).Draw(t, "rounds")
 	for i := 0; i < n; i++ {
 		r := PropRound{DT: rapid.SampledFrom([]int{1, 3, 5, 8}).Draw(t, "dt"), Proposer: rapid.IntRange(0, 1).Draw(t, "proposer"), Arg: rapid.IntRange(0, 99).Draw(t, "arg")}
@@ -510,7 +523,7 @@ func TestC08_Proposals(t *testing.T) {
 	RunProp(t, Prop[PropCase]{
 		ID: "C08", Name: "proposals", Quick: quick, Thor: thor, WAL: true,
 		Gen: genPropCase, Run: runPropCase,
-		Rule: "two-validator chains replicated on two nodes (own stores, own fake execution layers); histories of 3-12 rounds with states filled by refunds, claims and unlock bursts (matured unlocks included); honest rounds: 0-40 relayer transactions (valid votes, votes for an already used sequence, failing approvals, malformed batches, stale sequences) enter the proposer's mempool through CheckTx, the node holding the proposer's key runs the real PrepareProposal, every node must ACCEPT the result, it must have <= 16 transactions and its execution-block message must succeed in FinalizeBlock; deviation rounds: a well-formed proposal with exactly one of 28 deviations (no/17 transactions, block message not first / not alone / repeated, other author, author != consensus proposer, fee recipient != author, wrong parent / number / beacon root, 0 or 2 gas requests, undecodable requests, deviating system section, engine INVALID/SYNCING/ACCEPTED/error, timestamp 1 h ahead, wrong signature / sequence / timeout height, non-bridge message, raised count byte, nil payload, state root changed or a user transaction appended under the honest block's hash), in a third of these rounds after every node has verified (and accepted) the well-formed proposal of the same height, must be REJECTED by every node; the same property runs in a -race build where any reported data race is a violation; non-trivial = a deviation round or an honest round with a non-empty mempool; evaluations count rounds",
+		Rule: "two-validator chains replicated on two nodes (own stores, own fake execution layers), a quarter of them started at height 58 with a halving interval of one block (the history crosses the 64th halving); histories of 3-12 rounds with states filled by refunds, claims and unlock bursts (matured unlocks included); honest rounds: 0-40 relayer transactions (valid votes, votes for an already used sequence, failing approvals, malformed batches, stale sequences) enter the proposer's mempool through CheckTx, the node holding the proposer's key runs the real PrepareProposal, every node must ACCEPT the result, it must have <= 16 transactions and its execution-block message must succeed in FinalizeBlock; deviation rounds: a well-formed proposal with exactly one of 29 deviations (no/17 transactions, only relayer transactions without a block message, block message not first / not alone / repeated, other author, author != consensus proposer, fee recipient != author, wrong parent / number / beacon root, 0 or 2 gas requests, undecodable requests, deviating system section, engine INVALID/SYNCING/ACCEPTED/error, timestamp 1 h ahead, wrong signature / sequence / timeout height, non-bridge message, raised count byte, nil payload, state root changed or a user transaction appended under the honest block's hash), in a third of these rounds after every node has verified (and accepted) the well-formed proposal of the same height, must be REJECTED by every node; the same property runs in a -race build where any reported data race is a violation; non-trivial = a deviation round or an honest round with a non-empty mempool; evaluations count rounds",
 	})
 }
 
